@@ -43,7 +43,7 @@ SCOPE = {
              'pair of distinct coordinates x both sides (exhaustive, characters rotated); 1500 random batches of 1-4 with 0-3 distinct coordinates '
              'per example.  substitutions: every (position, character) single row for lengths 4-6 (exhaustive); 1500 random batches incl. '
              'repeated rows, empty row lists, conflicting rows.  refusal probes: every kind x {position, example, character} out of range.',
-    'thorough': 'as quick, plus deletions: 2 examples, lengths 4-11, every pair of subsets of <=3 positions x both sides (exhaustive); 3 examples, '
+    'thorough': 'as quick, plus deletions: 2 examples, lengths 4-12, every pair of subsets of <=3 positions x both sides (exhaustive, run last: a note says where the budget ended it); 3 examples, '
                 'lengths 4-5 every triple of subsets of <=2 positions; insertions: every triple of distinct coordinates for lengths 4-10; '
                 '40000 / 20000 / 20000 random deletion / insertion / substitution batches',
 }
@@ -293,6 +293,28 @@ def _edge_subset(g, L, kmax, left):
     return tuple(sorted(g.sample(pool, min(k, len(pool)))))
 
 
+def _del_pairs(rep, L_from, L_to, done_pair):
+    """2 examples: every pair of subsets of <= 3 positions x both trim sides; returns the last completed length"""
+    rot = 0
+    for L in range(L_from, L_to + 1):
+        A, seqs = _ident_seqs(2, L)
+        subs = list(_subsets(L, 3))
+        for D0 in subs:
+            for D1 in subs:
+                for left in (False, True):
+                    rot += 1
+                    rows = [(0, p) for p in D0] + [(1, p) for p in D1]
+                    _do(rep, _mk('del', A, seqs, rows, left, 'predict' if rot % 5 == 0 else 'rec'), ('d2', L, D0, D1, left),
+                        'deletion-2-examples-exhaustive', sample=(L == 4 and D0 == (2, 3) and D1 == (1,) and not left), nontrivial=bool(rows))
+            if rep.out_of_time():
+                break
+        if rep.out_of_time():
+            rep.note('time budget reached in the exhaustive deletion pairs at length %d' % L)
+            break
+        done_pair = L
+    return done_pair
+
+
 def run(rep):
     thorough = rep.tier == 'thorough'
     g = rep.rng
@@ -314,36 +336,8 @@ def run(rep):
             rep.note('time budget reached in deletion part')
             return
     rep.mark_exhaustive('deletion_effect, 1 example, lengths 4-14, every subset of <=3 positions, both trim sides')
-    # two examples: every pair of subsets
-    Lpair = 11 if thorough else 7
-    done_pair = 3
-    for L in range(4, Lpair + 1):
-        A, seqs = _ident_seqs(2, L)
-        subs = list(_subsets(L, 3))
-        for D0 in subs:
-            for D1 in subs:
-                for left in (False, True):
-                    rot += 1
-                    rows = [(0, p) for p in D0] + [(1, p) for p in D1]
-                    _do(rep, _mk('del', A, seqs, rows, left, via()), ('d2', L, D0, D1, left), 'deletion-2-examples-exhaustive',
-                        sample=(L == 4 and D0 == (2, 3) and D1 == (1,) and not left), nontrivial=bool(rows))
-            if rep.out_of_time():
-                break
-        if rep.out_of_time():
-            rep.note('time budget reached in the exhaustive deletion pairs at length %d' % L)
-            break
-        done_pair = L
-    rep.mark_exhaustive('deletion_effect, 2 examples, lengths 4-%d, every pair of subsets of <=3 positions, both trim sides' % done_pair)
-    if thorough:
-        for L in (4, 5):
-            A, seqs = _ident_seqs(3, L)
-            subs = list(_subsets(L, 2))
-            for D0, D1, D2 in itertools.product(subs, repeat=3):
-                for left in (False, True):
-                    rot += 1
-                    rows = [(0, p) for p in D0] + [(1, p) for p in D1] + [(2, p) for p in D2]
-                    _do(rep, _mk('del', A, seqs, rows, left, via()), ('d3', L, D0, D1, D2, left), 'deletion-3-examples-exhaustive', nontrivial=bool(rows))
-        rep.mark_exhaustive('deletion_effect, 3 examples, lengths 4-5, every triple of subsets of <=2 positions')
+    # two examples: every pair of subsets (thorough continues with longer sequences at the very end)
+    done_pair = _del_pairs(rep, 4, 7, 3)
     # random batches
     n_del = 40000 if thorough else 2500
     for k in range(n_del):
@@ -449,5 +443,24 @@ def run(rep):
                 for kind, rows in probes:
                     if kind == 'sub' and left:
                         continue
-                    rows = rows + ([(0, 1, 0)] if kind != 'del' else [(0, 1)])     # plus one honest row
+                    rows = rows + ([(0, 3, 0)] if kind != 'del' else [(0, 3)])     # plus one honest row
                     _do(rep, _mk(kind, A, seqs, rows, left), ('rf', L, N, left, kind, tuple(rows)), 'refusal-probes')
+
+    # ============ thorough only, last because it is the largest block
+    if thorough:
+        for L in (4, 5):
+            A, seqs = _ident_seqs(3, L)
+            subs = list(_subsets(L, 2))
+            for D0, D1, D2 in itertools.product(subs, repeat=3):
+                for left in (False, True):
+                    rot += 1
+                    rows = [(0, p) for p in D0] + [(1, p) for p in D1] + [(2, p) for p in D2]
+                    _do(rep, _mk('del', A, seqs, rows, left, via()), ('d3', L, D0, D1, D2, left), 'deletion-3-examples-exhaustive', nontrivial=bool(rows))
+            if rep.out_of_time():
+                rep.note('time budget reached in the exhaustive deletion triples')
+                break
+        else:
+            rep.mark_exhaustive('deletion_effect, 3 examples, lengths 4-5, every triple of subsets of <=2 positions')
+        if done_pair == 7 and not rep.out_of_time():
+            done_pair = _del_pairs(rep, 8, 12, done_pair)
+    rep.mark_exhaustive('deletion_effect, 2 examples, lengths 4-%d, every pair of subsets of <=3 positions, both trim sides' % done_pair)
